@@ -112,18 +112,24 @@ structure Cfg where
   fixed : List (List Char × Int)       -- `fixedDomainTtl`
 deriving Repr
 
-/-- `normalizeDnsRuntimeBehavior` -/
-def Cfg.normalize (opt : Bool) (stale maxSize : Int) (fixed : List (List Char × Int)) : Cfg :=
-  ⟨opt, if stale = 0 ∧ maxSize = 0 then 60 else stale, maxSize, fixed⟩
+/-- `ParseFixedDomainTtl`: keys are lower-cased, a later line for the same name overwrites an
+earlier one (a Go map).  The result is an association list with unique keys. -/
+def parseFixed (raw : List (List Char × Int)) : List (List Char × Int) :=
+  raw.foldl (fun m p => (p.1.map lowerAscii, p.2) :: m.filter (fun q => q.1 ≠ p.1.map lowerAscii)) []
 
-/-- Go map lookup `rt.fixedDomainTtl[host]` (exact string match). -/
+/-- `normalizeDnsRuntimeBehavior` (+ `ParseFixedDomainTtl` for the `fixed_domain_ttl` lines) -/
+def Cfg.normalize (opt : Bool) (stale maxSize : Int) (rawFixed : List (List Char × Int)) : Cfg :=
+  ⟨opt, if stale = 0 ∧ maxSize = 0 then 60 else stale, maxSize, parseFixed rawFixed⟩
+
+/-- Go map lookup in the `fixedDomainTtl` table -/
 def lookupFixed : List (List Char × Int) → List Char → Option Int
   | [], _ => none
   | (k, v) :: rest, h => if k = h then some v else lookupFixed rest h
 
-/-- The TTL that decides `Deadline`: the fixed TTL of the host when one is configured. -/
+/-- The TTL that decides `Deadline`: the fixed TTL of the host when one is configured; the table is
+asked with the lower-cased host (`rt.fixedDomainTtl[strings.ToLower(host)]`). -/
 def effTtl (cfg : Cfg) (host : List Char) (ttl : Int) : Int :=
-  match lookupFixed cfg.fixed host with
+  match lookupFixed cfg.fixed (host.map lowerAscii) with
   | some f => f
   | none => ttl
 
@@ -209,7 +215,7 @@ def insEntry (cfg : Cfg) (id : Nat) (now : Int) (key : Key) (host : List Char) (
     deadlineNano := deadline,
     packed := ok, packedTTL := if ok then ttlFromDeadline deadline now else 0,
     packedAt := if ok then now else 0,
-    refreshing := false, lastAccess := 0, id := id,
+    refreshing := false, lastAccess := now, id := id,
     src := ⟨now, insKey key host qtype, h, qtype, ttl, eff⟩ }
 
 /-- `__updateDnsCacheDeadline`.  `isIp` is `netip.ParseAddr(host) == nil` (not modelled): such a
@@ -399,15 +405,13 @@ def cloneAll : List (Key × Entry) → Nat → List (Key × Entry)
 /-- `CloneCacheForReload` on the old controller + `RestoreReloadCache` on a new, empty one. -/
 def State.reload (s : State) : State := ⟨cloneAll s.entries s.nextId, s.nextId + s.entries.length⟩
 
-/-- the deferred clean-up of `backgroundRefresh`: `LookupDnsRespCache(key, false)` then
-`MarkRefreshed` -/
-def State.refreshDone (s : State) (now : Int) (key : Key) : State :=
+/-- the deferred clean-up of `backgroundRefresh` (a refresh of `key` ended, with or without a new
+answer): the entry stored under the key is loaded as it is and `MarkRefreshed` releases its latch.
+Nothing is evicted. -/
+def State.refreshDone (s : State) (key : Key) : State :=
   match find s.entries key with
   | none => s
-  | some e =>
-    if e.deadline > now then
-      if e.refreshing then ⟨store s.entries key { e with refreshing := false }, s.nextId⟩ else s
-    else ⟨erase s.entries key, s.nextId⟩
+  | some e => if e.refreshing then ⟨store s.entries key { e with refreshing := false }, s.nextId⟩ else s
 
 /-- `RemoveDnsRespCache` -/
 def State.remove (s : State) (key : Key) : State := ⟨erase s.entries key, s.nextId⟩
@@ -450,7 +454,7 @@ def step (w : World) : Op → World × LRes
   | .janitor now choice => (⟨w.cfg, w.st.janitor w.cfg now choice⟩, .miss)
   | .reload cfg => (⟨cfg, w.st.reload⟩, .miss)
   | .reconf cfg => (⟨cfg, w.st⟩, .miss)
-  | .refreshDone now key => (⟨w.cfg, w.st.refreshDone now key⟩, .miss)
+  | .refreshDone _ key => (⟨w.cfg, w.st.refreshDone key⟩, .miss)
   | .remove key => (⟨w.cfg, w.st.remove key⟩, .miss)
   | .removeFamily base => (⟨w.cfg, w.st.removeFamily base⟩, .miss)
 
